@@ -36,6 +36,10 @@ SHAPES = {
                               'tags': [{'token': 'a', 'cands': [['N', 'V']], 'char': [('a', [0])], 'type': []}]},
     't9-type-boundary-only-wide': {'cw': 1, 'tw': 4, 'type': ['R'],
                                    'tags': [{'token': 'a', 'cands': [['N', 'V']], 'char': [('a', [0])], 'type': []}]},
+    # a tag model without any candidate (a token seen in tagged data but never tagged itself) precedes a regular one: token ids vs. weight-table positions
+    't10-candidate-less-first': {'cw': 1, 'tw': 1, 'char': ['a'],
+                                 'tags': [{'token': 'b', 'cands': [[]], 'char': [], 'type': []},
+                                          {'token': 'a', 'cands': [['N', 'V']], 'char': [('a', [0])], 'type': [('R', [0])]}]},
 }
 BOUNDS = {
     'quick': {'text_chars': '1..3', 'shapes': sorted(SHAPES), 'labels': 'symbolic in {WB,NB,Unknown} (set after prediction, as a filter would)',
@@ -63,7 +67,7 @@ def jobs(tier, seed):
                     continue
                 if name == 't7-nine-classes' and (n > (1 if tier == 'quick' else 2) or not store):
                     continue
-                if name in ('t8-type-boundary-only', 't9-type-boundary-only-wide') and tier == 'quick' and (n > 2 or not store):
+                if name in ('t8-type-boundary-only', 't9-type-boundary-only-wide', 't10-candidate-less-first') and tier == 'quick' and (n > 2 or not store):
                     continue
                 if tier == 'thorough' and heavy and n == 5:
                     continue
